@@ -139,6 +139,15 @@ func CheckSet(init [Keys]bool, ops []Op) (bool, string) {
 			case "Remove":
 				st[o.Key] = false
 				return o.Ok == cur, st
+			case "AddIfMember":
+				// one element's share of s.AddSet(s): the element is added again only if the walk over
+				// the set's own members met it; reporting "nothing gained" is always possible, "gained"
+				// only at an instant at which the element is absent (it was removed after the walk met it)
+				if !o.Ok {
+					return true, st
+				}
+				st[o.Key] = true
+				return !cur, st
 			}
 			panic("lin: unknown op " + o.Kind)
 		},
